@@ -50,7 +50,7 @@ GridExtras(dummy) ==
     BinE("-", a, BinE("-", b, c)), BinE("-", BinE("-", a, b), c) }
 
 (* kinds *)
-Reps(dummy) == { Lit(IntV(6)), Lit(IntV(0)), Lit(Rat(1, 2)), UnE("-", Lit(IntV(3))), Lit(BoolV(TRUE)), Lit(StrV("a")),
+Reps(dummy) == { Lit(IntV(6)), Lit(IntV(0)), Lit(Rat(1, 2)), Lit(Rat(3, 10)), UnE("-", Lit(IntV(3))), Lit(BoolV(TRUE)), Lit(StrV("a")),
           SetE(<<Lit(IntV(1)), Lit(IntV(2))>>), SetE(<<Lit(IntV(2)), Lit(IntV(5))>>), SetE(<<Lit(StrV("a"))>>),
           SetE(<<SetE(<<Lit(IntV(1))>>)>>), SetE(<<>>), SetE(<<Lit(IntV(1)), Lit(BoolV(TRUE))>>), SetE(<<Lit(BoolV(TRUE))>>),
           SetE(<<SetE(<<Lit(IntV(1))>>), SetE(<<Lit(IntV(1)), Lit(IntV(2))>>)>>),                      \* a chain of sets
